@@ -210,7 +210,7 @@ theorem C07b_total {G : Geo} {n : Index.Net} (hb : Built n) (ops : List Op)
     (∀ (sh : Shape), ∃ r, Index.findByShape G.meets n sh = .ok r) := by
   have hs := C07b_built_sync hb
   refine ⟨fun ids ts co ha => C07_assign_total (C07b_wf hb) s ids ts co ha,
-    fun o => C07_remove_total (C07b_wf hb) ops s h o, C07_open_total (C07b_wf hb) ops s h, ?_, ?_⟩
+    fun o => C07_remove_total _ s o, C07_open_total (C07b_wf hb) ops s h, ?_, ?_⟩
   · intro p; exact ⟨_, CR.Index.find_eq_scan G.within n hs [p]⟩
   · intro sh
     cases sh with
